@@ -47,7 +47,7 @@ try:
     confirmed = res.get("demo_passes_without_patch") and res.get("suite_passes_with_patch") and res.get("demo_fails_with_patch")
     res["confirmed"] = bool(confirmed)
     if confirmed:
-        dst = os.path.join(VERIF, "seeded", "%s-%s" % (pid, x))
+        dst = os.path.join(VERIF, "seeded", "%s-%s%s" % (pid, os.environ.get("SEED_TAG", ""), x))
         os.makedirs(dst, exist_ok=True)
         shutil.copy(os.path.join(src, "patch.diff"), dst)
         shutil.copy(os.path.join(src, "demo_test.go"), os.path.join(dst, "demo_test.go.txt"))
